@@ -106,9 +106,15 @@ func run(prop, tier string, seed int64, repo, verif, only string, meta rules.Pro
 		} else {
 			// merge verdicts of the extra configuration: only non-discharged
 			// obligations and counts are carried over
-			for _, o := range r.Obs {
+			have := map[string]bool{}
+			for _, o := range final.Obs {
 				if o.Status == core.Violated || o.Status == core.Undecided {
-					o.Key = o.Key + " [" + strings.Join(cfg.Env, ",") + "]"
+					have[o.Rule+"|"+o.Key] = true
+				}
+			}
+			for _, o := range r.Obs {
+				if (o.Status == core.Violated || o.Status == core.Undecided) && !have[o.Rule+"|"+o.Key] {
+					o.Detail = "[only under " + strings.Join(cfg.Env, ",") + "] " + o.Detail
 					final.Obs = append(final.Obs, o)
 				}
 			}
